@@ -477,7 +477,8 @@ def check_scu(ctx, case):
         if must_abort and not case.get("peer_abort"):
             if n_ab != 1 or not a.is_aborted:
                 ctx.fail("abort-on-failure", f"no-abort:{exp[-1]['cls']}", f"{op}: {exp[-1]['cls']} but {n_ab} A-ABORT sent, is_aborted={a.is_aborted}")
-        if not must_abort and exp and exp[-1]["cls"] not in ("wrong-type-with-status",):
+        undec = any(e["cls"] in ("pending-undecodable-identifier", "reply-undecodable") for e in exp) or any(it.get("ds") == "garbage" for it in script[:consumed])
+        if not must_abort and exp and exp[-1]["cls"] not in ("wrong-type-with-status",) and not undec:
             if n_ab:
                 ctx.fail("abort-on-failure", f"unexpected-abort:{exp[-1]['cls']}", f"{op}: association aborted although the exchange was valid ({[e['cls'] for e in exp]})")
         # the request itself went out exactly once, before anything else
@@ -570,4 +571,4 @@ def run(ctx):
     import warnings
 
     warnings.simplefilter("ignore")
-    ctx.hyp("scu", strategies(), 2500 if ctx.quick else 8000)
+    ctx.hyp("scu", strategies(), 2500 if ctx.quick else 20000)
